@@ -70,13 +70,13 @@ Qed.
 Definition b2n (b : bool) : nat := if b then 1 else 0.
 
 (* number of items whose CAS has succeeded *)
-Definition pushed (p : ppc) : nat := match p with PLoad j => j | PCas j _ => j end.
+Definition pushed (p : ppc) : nat := match p with PLoad j | PCas j _ | POLoad j | POCas j _ => j end.
 
 (* the consumer's program counter agrees with the operation at the head of the script *)
 Definition pc_ok (s : st) : Prop :=
   match cons s with
   | CStart => True
-  | CXchg => exists rest, script s = OpDeq :: rest \/ script s = OpInactiveOrDeq :: rest
+  | CXchg => exists rest, script s = OpDeq :: rest \/ script s = OpInactiveOrDeq :: rest \/ script s = OpDeqRev :: rest
   | CMarkCas b => exists rest, script s = (if b then OpInactiveOrDeq else OpTryInactive) :: rest
   end.
 
@@ -87,7 +87,7 @@ Record Inv (a0 : bool) (s : st) : Prop := {
   Q_mem : forall p j, In (p, j) (enq s) <->
             exists i n pc, p = S i /\ nth_error (prods s) i = Some (n, pc) /\ j < pushed pc;
   Q_bound : forall i n pc, nth_error (prods s) i = Some (n, pc) ->
-            pushed pc <= n /\ (forall j o, pc = PCas j o -> j < n);
+            pushed pc <= n /\ (forall j o, pc = PCas j o \/ pc = POCas j o -> j < n);
   Q_count : marks s + b2n (negb a0) = wakes s + actives s + b2n (inactive s);
   Q_xchg : cons s = CXchg -> stack s <> [];
   Q_pc : pc_ok s;
@@ -96,14 +96,24 @@ Record Inv (a0 : bool) (s : st) : Prop := {
             (script s = [OpDeq] \/ (script s = [] /\ stack s = []))
 }.
 
-Lemma inv_init a0 counts ops : Inv a0 (init a0 counts ops).
+Lemma mkprods_nth counts kinds i n pc :
+  nth_error (mkprods counts kinds) i = Some (n, pc) -> pc = PLoad 0 \/ pc = POLoad 0.
+Proof.
+  revert kinds i; induction counts as [|c r IH]; intros kinds [|i] H; cbn in *; try discriminate.
+  - injection H as _ <-. destruct (hd false kinds); auto.
+  - eauto.
+Qed.
+
+Lemma mkprods_fst counts kinds : map fst (mkprods counts kinds) = counts.
+Proof. revert kinds; induction counts as [|c r IH]; intros kinds; cbn; [reflexivity|]. now rewrite IH. Qed.
+
+Lemma inv_init a0 counts kinds ops : Inv a0 (init a0 counts kinds ops).
 Proof.
   constructor; cbn; try discriminate; auto.
   - constructor.
   - intros p j. split; [intros []|]. intros (i & n & pc & -> & H & Hlt).
-    apply nth_error_map_some in H as (x & _ & E). injection E as -> ->. cbn in Hlt. lia.
-  - intros i n pc H. apply nth_error_map_some in H as (x & _ & E). injection E as -> ->. cbn.
-    split; [lia|]. intros; discriminate.
+    apply mkprods_nth in H as [->| ->]; cbn in Hlt; lia.
+  - intros i n pc H. apply mkprods_nth in H as [->| ->]; cbn; (split; [lia|]); intros j o [E|E]; discriminate.
 Qed.
 
 Ltac inv_simpl :=
@@ -129,71 +139,156 @@ Proof.
 Qed.
 
 Lemma all_done_nth (l : list (nat * ppc)) i n pc :
-  forallb prod_done l = true -> nth_error l i = Some (n, pc) -> exists j, pc = PLoad j /\ n <= j.
+  forallb prod_done l = true -> nth_error l i = Some (n, pc) ->
+  exists j, (pc = PLoad j \/ pc = POLoad j) /\ n <= j.
 Proof.
   rewrite forallb_forall. intros H Hn.
   specialize (H _ (nth_error_In _ _ Hn)). unfold prod_done in H; cbn in H.
-  destruct pc; try discriminate. apply Nat.leb_le in H. eauto.
+  destruct pc; try discriminate; apply Nat.leb_le in H; eauto.
 Qed.
 
 Lemma ptr_eqb_refl p : ptr_eqb p p = true.
 Proof. destruct p as [| |[a b]]; cbn; auto. unfold item_eqb; cbn. now rewrite !Nat.eqb_refl. Qed.
 
+(* a producer's load: its pc becomes the CAS pc of the same item *)
+Lemma prod_load_inv a0 i s n pc pc' j :
+  Inv a0 s -> nth_error (prods s) i = Some (n, pc) -> (pc = PLoad j \/ pc = POLoad j) -> j < n ->
+  (exists o, pc' = PCas j o \/ pc' = POCas j o) ->
+  Inv a0 (set_prod s i (n, pc')).
+Proof.
+  intros I En Hpc Hj (o & Hpc'). destruct I.
+  assert (Hp : pushed pc' = pushed pc) by (destruct Hpc as [->| ->], Hpc' as [->| ->]; reflexivity).
+  constructor; inv_simpl; auto.
+  - intros p j0. rewrite Q_mem0. symmetry. eapply mem_same_pushed; eauto.
+  - intros i0 n0 pc0 Hn0. apply nth_error_set_nth in Hn0 as [(<- & E & _)|(Hne & Hn0)]; [|eauto].
+    injection E as -> ->. destruct Hpc' as [->| ->]; cbn; (split; [lia|]);
+      intros j1 o1 [E|E]; try discriminate; injection E as <- _; exact Hj.
+  - intros Hf. exfalso. destruct (Q_final0 Hf) as [Hd _].
+    destruct (all_done_nth _ _ _ _ Hd En) as (j' & [E|E] & Hle); destruct Hpc as [->| ->]; try discriminate;
+      injection E as <-; lia.
+Qed.
+
+(* a failed CAS: retry with the value seen *)
+Lemma prod_fail_inv a0 i s n pc pc' j :
+  Inv a0 s -> nth_error (prods s) i = Some (n, pc) ->
+  (exists o o', (pc = PCas j o /\ pc' = PCas j o') \/ (pc = POCas j o /\ pc' = POCas j o')) ->
+  Inv a0 (set_prod s i (n, pc')).
+Proof.
+  intros I En (o & o' & Hpc). destruct I.
+  assert (Hp : pushed pc' = pushed pc) by (destruct Hpc as [[-> ->]|[-> ->]]; reflexivity).
+  destruct (Q_bound0 _ _ _ En) as [Hb Hlt].
+  assert (Hj : j < n) by (destruct Hpc as [[-> _]|[-> _]]; eapply Hlt; eauto).
+  constructor; inv_simpl; auto.
+  - intros p j0. rewrite Q_mem0. symmetry. eapply mem_same_pushed; eauto.
+  - intros i0 n0 pc0 Hn0. apply nth_error_set_nth in Hn0 as [(<- & E & _)|(Hne & Hn0)]; [|eauto].
+    injection E as -> ->. destruct Hpc as [[_ ->]|[_ ->]]; cbn; (split; [lia|]);
+      intros j1 o1 [E|E]; try discriminate; injection E as <- _; exact Hj.
+  - intros Hf. exfalso. destruct (Q_final0 Hf) as [Hd _].
+    destruct (all_done_nth _ _ _ _ Hd En) as (j' & [E|E] & _); destruct Hpc as [[-> _]|[-> _]]; discriminate.
+Qed.
+
+(* a successful CAS links the item in (re-activating the queue if it replaced the marker) *)
+Lemma prod_push_inv a0 i s n pc pc' j :
+  Inv a0 s -> nth_error (prods s) i = Some (n, pc) ->
+  (exists o, pc = PCas j o \/ pc = POCas j o) -> (pc' = PLoad (S j) \/ pc' = POLoad (S j)) ->
+  Inv a0 (set_prod (add_enq (set_head s false ((S i, j) :: (if inactive s then [] else stack s))) (S i, j) (inactive s)) i (n, pc')).
+Proof.
+  intros I En (o & Hpc) Hpc'. destruct I.
+  assert (Hi : i < length (prods s)) by (eapply nth_error_lt; eauto).
+  destruct (Q_bound0 _ _ _ En) as [Hb Hlt].
+  assert (Hj : j < n) by (destruct Hpc as [->| ->]; eapply Hlt; eauto).
+  assert (Hpu : pushed pc = j) by (destruct Hpc as [->| ->]; reflexivity).
+  assert (Hpu' : pushed pc' = S j) by (destruct Hpc' as [->| ->]; reflexivity).
+  assert (Hnf : finalph s = false).
+  { destruct (finalph s) eqn:Hf; [|reflexivity]. exfalso. destruct (Q_final0 eq_refl) as [Hd _].
+    destruct (all_done_nth _ _ _ _ Hd En) as (j' & [E|E] & _); destruct Hpc as [->| ->]; discriminate. }
+  assert (Hfresh : ~ In (S i, j) (enq s)).
+  { intros Hin. apply Q_mem0 in Hin as (i0 & n0 & pc0 & E & Hn0 & Hl). injection E as <-.
+    rewrite En in Hn0. injection Hn0 as <- <-. lia. }
+  constructor; inv_simpl; try discriminate.
+  - rewrite Q_fifo0. destruct (inactive s) eqn:Ei.
+    + destruct (Q_ina0 eq_refl) as [-> _]. cbn. now rewrite app_nil_r.
+    + cbn. now rewrite app_assoc.
+  - apply NoDup_app_singleton; auto.
+  - intros p j0. rewrite in_app_iff, Q_mem0. cbn [In]. split.
+    + intros [(i0 & n0 & pc0 & -> & Hn0 & Hl)|[E|[]]].
+      * destruct (Nat.eq_dec i i0) as [<-|Hne].
+        -- rewrite En in Hn0. injection Hn0 as <- <-.
+           exists i, n, pc'. rewrite nth_error_set_nth_eq by exact Hi. repeat split; auto; lia.
+        -- exists i0, n0, pc0. rewrite nth_error_set_nth_neq by exact Hne. auto.
+      * injection E as <- <-. exists i, n, pc'.
+        rewrite nth_error_set_nth_eq by exact Hi. repeat split; auto; lia.
+    + intros (i0 & n0 & pc0 & -> & Hn0 & Hl).
+      apply nth_error_set_nth in Hn0 as [(<- & E & _)|(Hne & Hn0)].
+      * injection E as -> ->. rewrite Hpu' in Hl.
+        destruct (Nat.eq_dec j0 j) as [->|Hj0]; [right; left; reflexivity|].
+        left. exists i, n, pc. repeat split; auto; lia.
+      * left. exists i0, n0, pc0. auto.
+  - intros i0 n0 pc0 Hn0. apply nth_error_set_nth in Hn0 as [(<- & E & _)|(Hne & Hn0)]; [|eauto].
+    injection E as -> ->. rewrite Hpu'. split; [lia|]. intros j1 o1 [E|E]; destruct Hpc' as [->| ->]; discriminate.
+  - destruct (inactive s); cbn in *; lia.
+  - exact Q_pc0.
+  - rewrite Hnf. discriminate.
+Qed.
+
+(* enqueue_or_mark_active replaces the marker: the queue is active and empty, the item goes
+   straight back to the caller (a batch of one) *)
+Lemma prod_direct_inv a0 i s n j o :
+  Inv a0 s -> nth_error (prods s) i = Some (n, POCas j o) -> inactive s = true ->
+  Inv a0 (set_prod (add_delivered (add_enq (set_head s false []) (S i, j) true) [(S i, j)]) i (n, POLoad (S j))).
+Proof.
+  intros I En Ei. destruct I.
+  assert (Hi : i < length (prods s)) by (eapply nth_error_lt; eauto).
+  destruct (Q_bound0 _ _ _ En) as [Hb Hlt]. assert (Hj : j < n) by (eapply Hlt; eauto).
+  destruct (Q_ina0 Ei) as [Hst Hc].
+  assert (Hnf : finalph s = false).
+  { destruct (finalph s) eqn:Hf; [|reflexivity]. exfalso. destruct (Q_final0 eq_refl) as [Hd _].
+    destruct (all_done_nth _ _ _ _ Hd En) as (j' & [E|E] & _); discriminate. }
+  assert (Hfresh : ~ In (S i, j) (enq s)).
+  { intros Hin. apply Q_mem0 in Hin as (i0 & n0 & pc0 & E & Hn0 & Hl). injection E as <-.
+    rewrite En in Hn0. injection Hn0 as <- <-. cbn in Hl. lia. }
+  constructor; inv_simpl; try discriminate.
+  - rewrite Q_fifo0, Hst. cbn. now rewrite !app_nil_r.
+  - apply NoDup_app_singleton; auto.
+  - intros p j0. rewrite in_app_iff, Q_mem0. cbn [In]. split.
+    + intros [(i0 & n0 & pc0 & -> & Hn0 & Hl)|[E|[]]].
+      * destruct (Nat.eq_dec i i0) as [<-|Hne].
+        -- rewrite En in Hn0. injection Hn0 as <- <-. cbn in Hl.
+           exists i, n, (POLoad (S j)). rewrite nth_error_set_nth_eq by exact Hi. repeat split; auto; cbn; lia.
+        -- exists i0, n0, pc0. rewrite nth_error_set_nth_neq by exact Hne. auto.
+      * injection E as <- <-. exists i, n, (POLoad (S j)).
+        rewrite nth_error_set_nth_eq by exact Hi. repeat split; auto; cbn; lia.
+    + intros (i0 & n0 & pc0 & -> & Hn0 & Hl).
+      apply nth_error_set_nth in Hn0 as [(<- & E & _)|(Hne & Hn0)].
+      * injection E as -> ->. cbn in Hl.
+        destruct (Nat.eq_dec j0 j) as [->|Hj0]; [right; left; reflexivity|].
+        left. exists i, n, (POCas j o). repeat split; auto; cbn; lia.
+      * left. exists i0, n0, pc0. auto.
+  - intros i0 n0 pc0 Hn0. apply nth_error_set_nth in Hn0 as [(<- & E & _)|(Hne & Hn0)]; [|eauto].
+    injection E as -> ->. cbn. split; [lia|]. intros j1 o1 [E|E]; discriminate.
+  - rewrite Ei in Q_count0. cbn in *. lia.
+  - rewrite Hc. discriminate.
+  - rewrite Hc. exact I.
+  - rewrite Hnf. discriminate.
+Qed.
+
 Lemma step_prod_inv a0 i s s' evs : Inv a0 s -> step_prod i s = Some (s', evs) -> Inv a0 s'.
 Proof.
-  intros I H. unfold step_prod in H. destruct I.
+  intros I H. unfold step_prod in H.
   destruct (nth_error (prods s) i) as [[n pc]|] eqn:En; [|discriminate].
-  assert (Hi : i < length (prods s)) by (eapply nth_error_lt; eauto).
-  destruct pc as [j|j old].
-  - (* PLoad *)
-    destruct (Nat.ltb_spec j n) as [Hj|]; [|discriminate]. injection H as <- <-.
-    constructor; inv_simpl; auto.
-    + intros p j0. rewrite Q_mem0. symmetry. eapply mem_same_pushed; eauto.
-    + intros i0 n0 pc0 Hn0. apply nth_error_set_nth in Hn0 as [(<- & E & _)|(Hne & Hn0)]; [|eauto].
-      injection E as -> ->. cbn. split; [lia|]. intros j1 o E; injection E as <- _. exact Hj.
-    + intros Hf. exfalso. destruct (Q_final0 Hf) as [Hd _].
-      destruct (all_done_nth _ _ _ _ Hd En) as (j' & E & Hle). injection E as <-. lia.
-  - (* PCas *)
-    destruct (Q_bound0 _ _ _ En) as [Hb Hlt]. specialize (Hlt j old eq_refl). cbn in Hb.
-    assert (Hnf : finalph s = false).
-    { destruct (finalph s) eqn:Hf; [|reflexivity]. exfalso. destruct (Q_final0 eq_refl) as [Hd _].
-      destruct (all_done_nth _ _ _ _ Hd En) as (j' & E & _). discriminate. }
-    destruct (ptr_eqb (head_ptr s) old) eqn:Ecas; injection H as <- <-.
-    + (* success *)
-      assert (Hfresh : ~ In (S i, j) (enq s)).
-      { intros Hin. apply Q_mem0 in Hin as (i0 & n0 & pc0 & E & Hn0 & Hl). injection E as <-.
-        rewrite En in Hn0. injection Hn0 as <- <-. cbn in Hl. lia. }
-      constructor; inv_simpl; try discriminate.
-      * rewrite Q_fifo0. destruct (inactive s) eqn:Ei.
-        -- destruct (Q_ina0 eq_refl) as [-> _]. cbn. now rewrite app_nil_r.
-        -- cbn. now rewrite app_assoc.
-      * apply NoDup_app_singleton; auto.
-      * intros p j0. rewrite in_app_iff, Q_mem0. cbn [In]. split.
-        -- intros [(i0 & n0 & pc0 & -> & Hn0 & Hl)|[E|[]]].
-           ++ destruct (Nat.eq_dec i i0) as [<-|Hne].
-              ** rewrite En in Hn0. injection Hn0 as <- <-. cbn in Hl.
-                 exists i, n, (PLoad (S j)). rewrite nth_error_set_nth_eq by exact Hi.
-                 repeat split; auto; cbn; lia.
-              ** exists i0, n0, pc0. rewrite nth_error_set_nth_neq by exact Hne. auto.
-           ++ injection E as <- <-. exists i, n, (PLoad (S j)).
-              rewrite nth_error_set_nth_eq by exact Hi. repeat split; auto; cbn; lia.
-        -- intros (i0 & n0 & pc0 & -> & Hn0 & Hl).
-           apply nth_error_set_nth in Hn0 as [(<- & E & _)|(Hne & Hn0)].
-           ++ injection E as -> ->. cbn in Hl.
-              destruct (Nat.eq_dec j0 j) as [->|Hj]; [right; left; reflexivity|].
-              left. exists i, n, (PCas j old). repeat split; auto; cbn; lia.
-           ++ left. exists i0, n0, pc0. auto.
-      * intros i0 n0 pc0 Hn0. apply nth_error_set_nth in Hn0 as [(<- & E & _)|(Hne & Hn0)]; [|eauto].
-        injection E as -> ->. cbn. split; [lia|]. intros; discriminate.
-      * destruct (inactive s); cbn in *; lia.
-      * exact Q_pc0.
-      * rewrite Hnf. discriminate.
-    + (* failure: retry with the value seen *)
-      constructor; inv_simpl; auto.
-      * intros p j0. rewrite Q_mem0. symmetry. eapply mem_same_pushed; eauto.
-      * intros i0 n0 pc0 Hn0. apply nth_error_set_nth in Hn0 as [(<- & E & _)|(Hne & Hn0)]; [|eauto].
-        injection E as -> ->. cbn. split; [lia|]. intros j1 o E; injection E as <- _. exact Hlt.
-      * rewrite Hnf. discriminate.
+  destruct pc as [j|j old|j|j old].
+  - destruct (Nat.ltb_spec j n) as [Hj|]; [|discriminate]. injection H as <- <-.
+    eapply prod_load_inv; eauto.
+  - destruct (ptr_eqb (head_ptr s) old); injection H as <- <-.
+    + eapply prod_push_inv; eauto.
+    + eapply prod_fail_inv; eauto 6.
+  - destruct (Nat.ltb_spec j n) as [Hj|]; [|discriminate]. injection H as <- <-.
+    eapply prod_load_inv; eauto.
+  - destruct (ptr_eqb (head_ptr s) old); [destruct (inactive s) eqn:Ei|]; injection H as <- <-.
+    + eapply prod_direct_inv; eauto.
+    + pose proof (prod_push_inv a0 i s n (POCas j old) (POLoad (S j)) j I En) as P.
+      rewrite Ei in P. apply P; eauto.
+    + eapply prod_fail_inv; eauto 6.
 Qed.
 
 Lemma do_mark_active_inv a0 s ops' :
@@ -250,6 +345,15 @@ Proof.
       destruct I. destruct (stack s) as [|x r] eqn:Est; injection H as <- <-.
       * constructor; inv_simpl; rewrite ?Ei, ?Est, ?Es in *; fin. qfin Q_final0.
       * constructor; inv_simpl; rewrite ?Ei, ?Est, ?Es in *; fin.
+    + (* OpDeqRev *)
+      assert (Hnf : finalph s = false) by (eapply final_script; eauto; discriminate).
+      destruct (inactive s) eqn:Ei.
+      { unfold self_wake in H. destruct (all_prods_done s); [|discriminate].
+        injection H as H. replace s' with (fst (do_mark_active s (OpDeqRev :: rest))) by (now rewrite H).
+        apply do_mark_active_inv; auto. }
+      destruct I. destruct (stack s) as [|x r] eqn:Est; injection H as <- <-.
+      * constructor; inv_simpl; rewrite ?Ei, ?Est, ?Es, ?Hnf in *; fin.
+      * constructor; inv_simpl; rewrite ?Ei, ?Est, ?Es, ?Hnf in *; fin.
     + (* OpTryInactive *)
       assert (Hnf : finalph s = false) by (eapply final_script; eauto; discriminate).
       destruct (inactive s) eqn:Ei.
@@ -309,8 +413,8 @@ Proof.
   destruct (Nat.leb t (nprods s)); [eapply step_prod_inv; eauto|discriminate].
 Qed.
 
-Theorem inv_reachable a0 counts ops (sched : list nat) :
-  Inv a0 (fst (run step sched (init a0 counts ops, []))).
+Theorem inv_reachable a0 counts kinds ops (sched : list nat) :
+  Inv a0 (fst (run step sched (init a0 counts kinds ops, []))).
 Proof.
   apply (run_invariant_state _ _ _ step (Inv a0)).
   - intros s t s' ev. apply step_inv.
@@ -353,6 +457,9 @@ Proof.
       right. exists OpDeq. split; [discriminate|reflexivity].
     + destruct (inactive s); [right; destruct (Hsw _ H) as [-> ->]; auto|].
       destruct (stack s); injection H as <- <-; cbn; right; split; auto.
+      right. exists OpDeqRev. split; [discriminate|reflexivity].
+    + destruct (inactive s); [right; destruct (Hsw _ H) as [-> ->]; auto|].
+      destruct (stack s); injection H as <- <-; cbn; right; split; auto.
       right. exists OpTryInactive. split; [discriminate|reflexivity].
     + destruct (inactive s); [right; destruct (Hsw _ H) as [-> ->]; auto|].
       destruct (stack s); injection H as <- <-; cbn; right; split; auto.
@@ -361,7 +468,7 @@ Proof.
     + destruct (all_prods_done s); [|discriminate].
       destruct (do_mark_active s [OpDeq]) as [s1 e1]. injection H as <- <-. left. reflexivity.
   - injection H as <- <-. unfold do_xchg; cbn. right. split; [reflexivity|]. right.
-    destruct Hpc as [r [E|E]]; injection E as -> ->; eexists; (split; [|reflexivity]); discriminate.
+    destruct Hpc as [r [E|[E|E]]]; injection E as -> ->; eexists; (split; [|reflexivity]); discriminate.
   - destruct Hpc as [r E]. injection E as -> ->.
     destruct b; destruct (stack s); injection H as <- <-; cbn; right; (split; [reflexivity|]);
       first [left; reflexivity | right; eexists; split; [|reflexivity]; discriminate].
@@ -376,13 +483,15 @@ Proof.
     + rewrite Hf, E. exact F.
     + rewrite Hf. intros Hn. specialize (F Hn). rewrite E in F. eapply tail_final_cons; eauto.
   - destruct (Nat.leb t (nprods s)); [|discriminate]. unfold step_prod in H.
-    destruct (nth_error (prods s) (pred t)) as [[n [j|j old]]|]; try discriminate.
+    destruct (nth_error (prods s) (pred t)) as [[n [j|j old|j|j old]]|]; try discriminate.
     + destruct (Nat.ltb j n); [|discriminate]. injection H as <- <-. exact F.
     + destruct (ptr_eqb (head_ptr s) old); injection H as <- <-; exact F.
+    + destruct (Nat.ltb j n); [|discriminate]. injection H as <- <-. exact F.
+    + destruct (ptr_eqb (head_ptr s) old); [destruct (inactive s)|]; injection H as <- <-; exact F.
 Qed.
 
-Theorem finv_reachable a0 counts pre (sched : list nat) :
-  let s := fst (run step sched (init a0 counts (pre ++ [OpFinal]), [])) in
+Theorem finv_reachable a0 counts kinds pre (sched : list nat) :
+  let s := fst (run step sched (init a0 counts kinds (pre ++ [OpFinal]), [])) in
   Inv a0 s /\ FInv s.
 Proof.
   apply (run_invariant_state _ _ _ step (fun s => Inv a0 s /\ FInv s)).
@@ -394,13 +503,14 @@ Qed.
 (* traces                                                                                      *)
 
 Definition enqs (tr : list ev) : list item :=
-  flat_map (fun e => match e with EEnqCas _ it true => [it] | _ => [] end) tr.
+  flat_map (fun e => match e with EEnqCas _ it true | EOrmCas _ it _ true => [it] | _ => [] end) tr.
+(* what the consumer was handed, normalised to enqueue order (a reversed stack is read backwards) *)
 Definition batches (tr : list ev) : list item :=
-  flat_map (fun e => match e with EBatch b => b | _ => [] end) tr.
+  flat_map (fun e => match e with EBatch b => b | EBatchRev b => rev b | EDirect it => [it] | _ => [] end) tr.
 Definition n_marks (tr : list ev) : nat :=
   length (filter (fun e => match e with EMarkInactive _ true => true | _ => false end) tr).
 Definition n_wakes (tr : list ev) : nat :=
-  length (filter (fun e => match e with EWake _ => true | _ => false end) tr).
+  length (filter (fun e => match e with EWake _ | EDirect _ => true | _ => false end) tr).
 Definition n_actives (tr : list ev) : nat :=
   length (filter (fun e => match e with EMarkActive _ true => true | _ => false end) tr).
 
@@ -413,12 +523,16 @@ Proof.
   unfold step. destruct (Nat.eqb t 0).
   - unfold step_cons, self_wake, do_mark_active, do_xchg.
     destruct (script s) as [|op rest]; [discriminate|].
-    destruct (cons s) as [| |b]; [destruct op| |]; try (destruct (all_prods_done s));
+    destruct (cons s) as [| |b]; [destruct op|destruct op|]; try (destruct (all_prods_done s));
       try (destruct (inactive s)); try (destruct (stack s)); try (destruct b);
       try discriminate; intros H; injection H as <- <-; cbn;
       rewrite ?app_nil_r, ?Nat.add_0_r, ?Nat.add_1_r; auto.
   - destruct (Nat.leb t (nprods s)); [|discriminate]. unfold step_prod.
-    destruct (nth_error (prods s) (pred t)) as [[n [j|j old]]|]; try discriminate.
+    destruct (nth_error (prods s) (pred t)) as [[n [j|j old|j|j old]]|]; try discriminate.
+    + destruct (Nat.ltb j n); [|discriminate]. intros H; injection H as <- <-; cbn.
+      rewrite ?app_nil_r, ?Nat.add_0_r; auto.
+    + destruct (ptr_eqb (head_ptr s) old); [destruct (inactive s)|]; intros H; injection H as <- <-; cbn;
+        rewrite ?app_nil_r, ?Nat.add_0_r, ?Nat.add_1_r; auto.
     + destruct (Nat.ltb j n); [|discriminate]. intros H; injection H as <- <-; cbn.
       rewrite ?app_nil_r, ?Nat.add_0_r; auto.
     + destruct (ptr_eqb (head_ptr s) old); [destruct (inactive s)|]; intros H; injection H as <- <-; cbn;
@@ -430,8 +544,8 @@ Definition TInv (c : st * list ev) : Prop :=
   n_marks (snd c) = marks (fst c) /\ n_wakes (snd c) = wakes (fst c) /\
   n_actives (snd c) = actives (fst c).
 
-Theorem tinv_reachable a0 counts ops (sched : list nat) :
-  TInv (run step sched (init a0 counts ops, [])).
+Theorem tinv_reachable a0 counts kinds ops (sched : list nat) :
+  TInv (run step sched (init a0 counts kinds ops, [])).
 Proof.
   apply (run_invariant _ _ _ step TInv).
   - intros c t s' ev (H1 & H2 & H3 & H4 & H5) H. apply step_ghost in H as (G1 & G2 & G3 & G4 & G5).
@@ -444,12 +558,12 @@ Qed.
 (* theorems                                                                                    *)
 
 Section Reach.
-  Variables (a0 : bool) (counts : list nat) (ops : list cop) (sched : list nat).
-  Let c := run step sched (init a0 counts ops, []).
+  Variables (a0 : bool) (counts : list nat) (kinds : list bool) (ops : list cop) (sched : list nat).
+  Let c := run step sched (init a0 counts kinds ops, []).
   Let s := fst c.
   Let tr := snd c.
-  Let HI : Inv a0 s := inv_reachable a0 counts ops sched.
-  Let HT : TInv c := tinv_reachable a0 counts ops sched.
+  Let HI : Inv a0 s := inv_reachable a0 counts kinds ops sched.
+  Let HT : TInv c := tinv_reachable a0 counts kinds ops sched.
 
   (* nothing lost, nothing duplicated, FIFO: the batches handed to the consumer, concatenated, plus
      what is still chained off head_ (reversed) are exactly the items in the order of their
@@ -502,53 +616,57 @@ Proof.
   unfold step, counts_of. destruct (Nat.eqb t 0).
   - unfold step_cons, self_wake, do_mark_active, do_xchg.
     destruct (script s) as [|op rest]; [discriminate|].
-    destruct (cons s) as [| |b]; [destruct op| |]; try (destruct (all_prods_done s));
+    destruct (cons s) as [| |b]; [destruct op|destruct op|]; try (destruct (all_prods_done s));
       try (destruct (inactive s)); try (destruct (stack s)); try (destruct b);
       try discriminate; intros H; injection H as <- <-; reflexivity.
   - destruct (Nat.leb t (nprods s)); [|discriminate]. unfold step_prod.
-    destruct (nth_error (prods s) (pred t)) as [[n [j|j old]]|] eqn:En; try discriminate.
+    destruct (nth_error (prods s) (pred t)) as [[n [j|j old|j|j old]]|] eqn:En; try discriminate.
     + destruct (Nat.ltb j n); [|discriminate]. intros H; injection H as <- <-; cbn.
       eapply map_fst_set_nth; eauto.
     + destruct (ptr_eqb (head_ptr s) old); intros H; injection H as <- <-; cbn;
         eapply map_fst_set_nth; eauto.
+    + destruct (Nat.ltb j n); [|discriminate]. intros H; injection H as <- <-; cbn.
+      eapply map_fst_set_nth; eauto.
+    + destruct (ptr_eqb (head_ptr s) old); [destruct (inactive s)|]; intros H; injection H as <- <-; cbn;
+        eapply map_fst_set_nth; eauto.
 Qed.
 
-Lemma counts_reachable a0 counts ops (sched : list nat) :
-  counts_of (fst (run step sched (init a0 counts ops, []))) = counts.
+Lemma counts_reachable a0 counts kinds ops (sched : list nat) :
+  counts_of (fst (run step sched (init a0 counts kinds ops, []))) = counts.
 Proof.
   apply (run_invariant_state _ _ _ step (fun s => counts_of s = counts)).
   - intros s t s' ev H1 H. apply step_counts in H. congruence.
-  - unfold counts_of; cbn. rewrite map_map. cbn. apply map_id.
+  - unfold counts_of; cbn. apply mkprods_fst.
 Qed.
 
 (* a script that ends with the final drain: when everything has finished, every item of every
    producer has been handed to the consumer exactly once, in the order of the successful CASes *)
-Theorem final_all_delivered a0 counts pre (sched : list nat) :
-  let c := run step sched (init a0 counts (pre ++ [OpFinal]), []) in
+Theorem final_all_delivered a0 counts kinds pre (sched : list nat) :
+  let c := run step sched (init a0 counts kinds (pre ++ [OpFinal]), []) in
   final (fst c) = true ->
   batches (snd c) = enqs (snd c) /\ NoDup (batches (snd c)) /\ stack (fst c) = [] /\
   forall i n j, nth_error counts i = Some n -> j < n -> In (S i, j) (batches (snd c)).
 Proof.
-  intros c Hf. destruct (finv_reachable a0 counts pre sched) as [HI HF]. fold c in HI, HF.
+  intros c Hf. destruct (finv_reachable a0 counts kinds pre sched) as [HI HF]. fold c in HI, HF.
   set (s := fst c) in *. unfold final in Hf. destruct (script s) eqn:Es; [|discriminate].
   assert (Hph : finalph s = true).
   { destruct (finalph s) eqn:E; [reflexivity|]. exfalso. destruct (HF E) as [p Hp]. rewrite Es in Hp.
     destruct p; discriminate. }
   destruct (Q_final a0 s HI Hph) as (_ & _ & [E|[_ Hst]]); [rewrite Es in E; discriminate|].
-  destruct (fifo_no_loss a0 counts (pre ++ [OpFinal]) sched) as [Hfifo Hnd]. fold c s in Hfifo, Hnd.
+  destruct (fifo_no_loss a0 counts kinds (pre ++ [OpFinal]) sched) as [Hfifo Hnd]. fold c s in Hfifo, Hnd.
   rewrite Hst in Hfifo. cbn in Hfifo. rewrite app_nil_r in Hfifo.
   split; [now rewrite Hfifo|]. split; [rewrite <- Hfifo; exact Hnd|]. split; [exact Hst|].
-  intros i n j Hn Hj. rewrite <- Hfifo. apply (enq_items a0 counts (pre ++ [OpFinal]) sched).
-  fold c s. pose proof (counts_reachable a0 counts (pre ++ [OpFinal]) sched) as Hc. fold c s in Hc.
+  intros i n j Hn Hj. rewrite <- Hfifo. apply (enq_items a0 counts kinds (pre ++ [OpFinal]) sched).
+  fold c s. pose proof (counts_reachable a0 counts kinds (pre ++ [OpFinal]) sched) as Hc. fold c s in Hc.
   rewrite <- Hc in Hn. unfold counts_of in Hn. apply nth_error_map_some in Hn as ([n' pc] & Hn & ->).
   exists i, n', pc. repeat split; auto. cbn in Hj.
-  destruct (all_done_nth _ _ _ _ Hf Hn) as (j' & -> & Hle). cbn. lia.
+  destruct (all_done_nth _ _ _ _ Hf Hn) as (j' & [->| ->] & Hle); cbn; lia.
 Qed.
 
 (* enqueue() returns true exactly when its CAS replaced the inactive marker, which re-activates
    the queue; the step is a producer's *)
-Theorem wake_iff_cas_from_inactive a0 counts ops (sched1 : list nat) t s' evs it :
-  let c1 := run step sched1 (init a0 counts ops, []) in
+Theorem wake_iff_cas_from_inactive a0 counts kinds ops (sched1 : list nat) t s' evs it :
+  let c1 := run step sched1 (init a0 counts kinds ops, []) in
   step t (fst c1) = Some (s', evs) ->
   (In (EWake it) evs <-> In (EEnqCas PInactive it true) evs) /\
   (In (EWake it) evs -> inactive (fst c1) = true /\ inactive s' = false /\ t = fst it /\
@@ -558,14 +676,14 @@ Proof.
   - assert (Hno : forall e, In e evs -> match e with EWake _ | EEnqCas _ _ _ => False | _ => True end).
     { unfold step_cons, self_wake, do_mark_active, do_xchg in H.
       destruct (script s) as [|op rest]; [discriminate|].
-      destruct (cons s) as [| |b]; [destruct op| |]; try (destruct (all_prods_done s));
+      destruct (cons s) as [| |b]; [destruct op|destruct op|]; try (destruct (all_prods_done s));
         try (destruct (inactive s)); try (destruct (stack s)); try (destruct b);
         try discriminate; injection H as <- <-; cbn; intros e He;
         repeat (destruct He as [<-|He]; [exact I|]); destruct He. }
     split; [split; intros Hin; destruct (Hno _ Hin)|intros Hin; destruct (Hno _ Hin)].
   - destruct (Nat.leb t (nprods s)); [|discriminate]. unfold step_prod in H.
     destruct t as [|i]; [congruence|]. cbn [pred] in H.
-    destruct (nth_error (prods s) i) as [[n [j|j old]]|]; try discriminate.
+    destruct (nth_error (prods s) i) as [[n [j|j old|j|j old]]|]; try discriminate.
     + destruct (Nat.ltb j n); [|discriminate]. injection H as <- <-. cbn.
       split; [split; intros [E|[]]; discriminate|intros [E|[]]; discriminate].
     + destruct (ptr_eqb (head_ptr s) old) eqn:Ecas; [|injection H as <- <-; cbn;
@@ -576,5 +694,47 @@ Proof.
         -- intros [E|[E|[]]]; try discriminate. injection E as <-. auto.
       * split.
         -- split; intros [E|[]]; try discriminate. destruct (stack s); discriminate.
+        -- intros [E|[]]; discriminate.
+    + destruct (Nat.ltb j n); [|discriminate]. injection H as <- <-. cbn.
+      split; [split; intros [E|[]]; discriminate|intros [E|[]]; discriminate].
+    + destruct (ptr_eqb (head_ptr s) old); [destruct (inactive s)|]; injection H as <- <-; cbn;
+        (split; [split; intros Hin|intros Hin]); repeat (destruct Hin as [Hin|Hin]; try discriminate); destruct Hin.
+Qed.
+
+(* enqueue_or_mark_active returns false (item handed back, queue re-activated) exactly when its CAS
+   replaced the inactive marker *)
+Theorem direct_iff_cas_from_inactive a0 counts kinds ops (sched1 : list nat) t s' evs it :
+  let c1 := run step sched1 (init a0 counts kinds ops, []) in
+  step t (fst c1) = Some (s', evs) ->
+  (In (EDirect it) evs <-> In (EOrmCas PInactive it true true) evs) /\
+  (In (EDirect it) evs -> inactive (fst c1) = true /\ inactive s' = false /\ t = fst it /\
+                          evs = [EOrmCas PInactive it true true; EDirect it]).
+Proof.
+  intros c1 H. set (s := fst c1) in *. unfold step in H. destruct (Nat.eqb_spec t 0) as [->|Ht].
+  - assert (Hno : forall e, In e evs -> match e with EDirect _ | EOrmCas _ _ _ _ => False | _ => True end).
+    { unfold step_cons, self_wake, do_mark_active, do_xchg in H.
+      destruct (script s) as [|op rest]; [discriminate|].
+      destruct (cons s) as [| |b]; [destruct op|destruct op|]; try (destruct (all_prods_done s));
+        try (destruct (inactive s)); try (destruct (stack s)); try (destruct b);
+        try discriminate; injection H as <- <-; cbn; intros e He;
+        repeat (destruct He as [<-|He]; [exact I|]); destruct He. }
+    split; [split; intros Hin; destruct (Hno _ Hin)|intros Hin; destruct (Hno _ Hin)].
+  - destruct (Nat.leb t (nprods s)); [|discriminate]. unfold step_prod in H.
+    destruct t as [|i]; [congruence|]. cbn [pred] in H.
+    destruct (nth_error (prods s) i) as [[n [j|j old|j|j old]]|]; try discriminate.
+    + destruct (Nat.ltb j n); [|discriminate]. injection H as <- <-. cbn.
+      split; [split; intros [E|[]]; discriminate|intros [E|[]]; discriminate].
+    + destruct (ptr_eqb (head_ptr s) old); [destruct (inactive s)|]; injection H as <- <-; cbn;
+        (split; [split; intros Hin|intros Hin]); repeat (destruct Hin as [Hin|Hin]; try discriminate); destruct Hin.
+    + destruct (Nat.ltb j n); [|discriminate]. injection H as <- <-. cbn.
+      split; [split; intros [E|[]]; discriminate|intros [E|[]]; discriminate].
+    + destruct (ptr_eqb (head_ptr s) old) eqn:Ecas; [|injection H as <- <-; cbn;
+        split; [split; intros [E|[]]; discriminate|intros [E|[]]; discriminate]].
+      unfold head_ptr in *. destruct (inactive s) eqn:Ei; injection H as <- <-; cbn.
+      * split.
+        -- split; intros [E|[E|[]]]; try discriminate; injection E as <-; auto.
+        -- intros [E|[E|[]]]; try discriminate. injection E as <-. auto.
+      * split.
+        -- split; intros [E|[]]; discriminate.
         -- intros [E|[]]; discriminate.
 Qed.
